@@ -198,6 +198,14 @@ def families(seed, tier):
             [policy("X", "accept"), policy("Y", "accept"), op("freeze", dir="fwd", on=True), open_("X"), op("pump", ms=100 + 50 * i), open_("Y"),
              await_("Y", "answered", ms=5000), await_("X", "answered", ms=5000), op("pump", ms=3300), op("freeze", dir="fwd", on=False),
              op("settle", quiet=300, ms=3000), open_("X"), await_("X", "answered", ms=4000), await_("X", "open", ms=2000), op("pump", ms=200)])
+    # ... the other order (X has the shorter timeout): X's own id fails while Y's substream is still being read
+    # (Validating with outbound OutboundInitiated): the failure is reported, the dead id is kept as pending_open
+    # (recorded finding open-reuses-failed-pending-substream-id) and X's next open reuses it
+    for i in range(2 if tier == "quick" else 4):
+        add("outbound-fails-while-inbound-pending", dict(cfg(0, perturb=i % 3), sot_x=1500, sot_y=4000),
+            [policy("X", "accept"), policy("Y", "accept"), op("freeze", dir="fwd", on=True), open_("X"), op("pump", ms=100 + 50 * i), open_("Y"),
+             await_("X", "answered", ms=5000), await_("Y", "answered", ms=6000), op("pump", ms=300), op("freeze", dir="fwd", on=False),
+             op("settle", quiet=300, ms=3000), open_("X"), await_("X", "answered", ms=4000), op("pump", ms=200)])
     # dialing on demand / dialing disabled
         add("dial-on-open", cfg(0, dial=True, perturb=1), [policy("X", "accept"), policy("Y", "accept"), op("cut"), await_("X", "down"), await_("Y", "down"),
                                                            open_("X"), await_("X", "open", ms=10000)])
@@ -368,7 +376,8 @@ MC_LINES = ["SPECIFICATION Spec", "INVARIANTS MonOK NoUnknownPanic QuiesceOK", "
 
 # recorded finding (signature in known_findings.txt) -> tag of the defect in NotifMC; a tag whose finding line is gone
 # (turned into `fixed:`) is modelled as repaired and is no longer tolerated
-SIG_TAG = {"open-ignored-during-leftover-substream-of-late-accept": "ignored-open-never-answered"}
+SIG_TAG = {"open-ignored-during-leftover-substream-of-late-accept": "ignored-open-never-answered",
+           "open-reuses-failed-pending-substream-id": "failed-open-id-kept-pending"}
 
 
 def fixed_tags():
